@@ -1,4 +1,6 @@
 import NavisModel.Proofs.XformLemmas
+import NavisModel.Proofs.XformImageLemmas
+import NavisModel.Gen.XformFacts
 /-!
 # C16 — transforming or mirroring a neuron moves its coordinates and nothing else
 
@@ -333,5 +335,413 @@ example : (symmetrizeNeuron (symmetrize 0 10 (mirrorFn .x 10 (some (V3.add ⟨1,
     sampleDots2).map (fun n => (n.pts.xyz, n.vect))
     = some ([⟨2, 0, 0⟩, ⟨6, 1, 1⟩], some [⟨-2, 0, 0⟩, ⟨0, -2, 0⟩]) := by decide +kernel
 example : checkXform 0 T1.apply 0 sampleTree (specXform T1.apply 0 sampleTree) = true := by decide +kernel
+
+/-! ## 8. images (VoxelNeuron): resampling through the inverse of the sequence
+
+Vocabulary (`Model/XformImage.lean`): `inv T` = `AffineTransform.__neg__`; `negSeq ts` = `TransformSequence.__neg__`
+as written (every member inverted, order REVERSED); `negSeqWith false` = the same comprehension without `[::-1]`;
+`Img` = shape + `offset` + voxel size + content; `worldOf off pitch idx = off + idx · pitch`;
+`imageOff / imagePitch / imageVal true ts g` = what `_xform_image` returns for the sequence `ts`: offset and voxel
+size from the forward-transformed bounding box, every target voxel the tri-linear sample (`order=1`, outside → 0) of
+the source at `(negSeq ts)(world position of the target voxel)`. -/
+section Image
+open Navis.XformImage
+
+/-- `-T` undoes `T` and vice versa, for every non-singular affine transform. -/
+theorem affine_neg_inverts (T : Aff) (h : T.det ≠ 0) (p : V3) :
+    (inv T).apply (T.apply p) = p ∧ T.apply ((inv T).apply p) = p :=
+  ⟨inv_apply_apply T h p, apply_inv_apply T h p⟩
+
+/-- **sequence_neg_inverts.** `-seq` as written (inverted members, reversed order) is a two-sided inverse of the
+sequence, for every length and all non-singular members. -/
+theorem sequence_neg_inverts (ts : List Aff) (h : invertible ts = true) (p : V3) :
+    seqApply (negSeq ts) (seqApply ts p) = p ∧ seqApply ts (seqApply (negSeq ts) p) = p :=
+  ⟨negSeq_left ts ((invertible_iff ts).1 h) p, negSeq_right ts ((invertible_iff ts).1 h) p⟩
+
+/-- **pullback_through_reversed_inverses.** Pulling a point back through the inverse of a composition `ts ; us`
+is pulling it back through the inverse of `us` FIRST and the inverse of `ts` second — the inverse of a
+concatenation is the concatenation of the inverses in reversed order.  This is where the order in `__neg__`
+matters. -/
+theorem pullback_through_reversed_inverses (ts us : List Aff) (w : V3) :
+    negSeq (ts ++ us) = negSeq us ++ negSeq ts
+    ∧ seqApply (negSeq (ts ++ us)) w = seqApply (negSeq ts) (seqApply (negSeq us) w) := by
+  refine ⟨negSeq_append ts us, ?_⟩
+  rw [negSeq_append, seqApply_append]
+
+/-- **unreversed_inverse_iff_commute.** Inverting the members WITHOUT reversing their order gives an inverse of
+a two-member sequence exactly when the two members commute: commuting controls cannot see the difference, every
+non-commuting pair does. -/
+theorem unreversed_inverse_iff_commute (A B : Aff) (hA : A.det ≠ 0) (hB : B.det ≠ 0) :
+    (∀ p, seqApply (negSeqWith false [A, B]) (seqApply [A, B] p) = p)
+      ↔ (∀ p, B.apply (A.apply p) = A.apply (B.apply p)) :=
+  unreversed_pair_iff A B hA hB
+
+def S2 : Aff := ⟨2, 0, 0, 0, 0, 2, 0, 0, 0, 0, 2, 0⟩
+def Sh : Aff := ⟨1, 0, 0, 12, 0, 1, 0, 0, 0, 0, 1, -4⟩
+
+/-- … and "scale by 2, then shift by (12, 0, −4)" is such a pair: un-reversed inverses send the image of the
+origin to `(−6, 0, 2)`, not back to the origin. -/
+theorem unreversed_inverse_wrong :
+    S2.det ≠ 0 ∧ Sh.det ≠ 0 ∧ seqApply (negSeqWith false [S2, Sh]) (seqApply [S2, Sh] ⟨0, 0, 0⟩) = ⟨-6, 0, 2⟩
+    ∧ seqApply (negSeq [S2, Sh]) (seqApply [S2, Sh] ⟨0, 0, 0⟩) = ⟨0, 0, 0⟩ := by decide +kernel
+
+/-- **image_depends_only_on_map.** Two sequences of non-singular affine transforms that move every point the same
+way — a single composed affine, a sequence of several members, the transforms along a bridging path — give the
+same image: same offset, same voxel size, same content in every voxel. -/
+theorem image_depends_only_on_map (ts us : List Aff) (hts : invertible ts = true) (hus : invertible us = true)
+    (heq : ∀ p, seqApply ts p = seqApply us p) (g : Img) :
+    imageOff ts g = imageOff us g ∧ imagePitch ts g = imagePitch us g
+    ∧ ∀ i j k, imageVal true ts g i j k = imageVal true us g i j k := by
+  have hf : seqApply ts = seqApply us := funext heq
+  have hb : seqApply (negSeqWith true ts) = seqApply (negSeqWith true us) :=
+    funext (negSeq_unique ts us ((invertible_iff ts).1 hts) ((invertible_iff us).1 hus) heq)
+  refine ⟨by simp only [imageOff, hf], by simp only [imagePitch, hf], fun i j k => ?_⟩
+  simp only [imageVal, hf, hb]
+
+/-- **image_signal_follows_transform.** For every target voxel: the source position it is resampled from, pushed
+FORWARD through the sequence, is exactly the world position of that target voxel (`offset' + index · voxel size'`).
+All non-singular sequences, all grids with non-zero voxel size. -/
+theorem image_signal_follows_transform (ts : List Aff) (h : invertible ts = true) (g : Img)
+    (hx : g.pitch.x ≠ 0) (hy : g.pitch.y ≠ 0) (hz : g.pitch.z ≠ 0) (i j k : Int) :
+    seqApply ts (worldOf g.off g.pitch (pull (seqApply ts) (seqApply (negSeq ts)) g i j k))
+      = worldOf (imageOff ts g) (imagePitch ts g) (idxV i j k) := by
+  simp only [pull]
+  rw [world_srcIndex _ g _ _ _ hx hy hz, negSeq_right ts ((invertible_iff ts).1 h)]
+  rfl
+
+/-- Sampling (`map_coordinates`, `order=1`) at the position of a voxel returns that voxel. -/
+theorem sample_at_voxel (val : Int → Int → Int → Rat) (nx ny nz : Nat) (i j k : Int)
+    (hi : 0 ≤ i ∧ i < nx) (hj : 0 ≤ j ∧ j < ny) (hk : 0 ≤ k ∧ k < nz) :
+    sample val nx ny nz (idxV i j k) = val i j k :=
+  sample_int val nx ny nz i j k hi hj hk
+
+/-- **image_voxel_lands.** If the forward image of the source voxel `(i, j, k)` is the world position of the target
+voxel `(a, b, c)`, the target voxel holds exactly the value of that source voxel: every bright voxel lands where
+the forward transform sends it. -/
+theorem image_voxel_lands (ts : List Aff) (h : invertible ts = true) (g : Img)
+    (hx : g.pitch.x ≠ 0) (hy : g.pitch.y ≠ 0) (hz : g.pitch.z ≠ 0) (i j k a b c : Int)
+    (hi : 0 ≤ i ∧ i < g.nx) (hj : 0 ≤ j ∧ j < g.ny) (hk : 0 ≤ k ∧ k < g.nz)
+    (hland : worldOf (imageOff ts g) (imagePitch ts g) (idxV a b c) = seqApply ts (worldOf g.off g.pitch (idxV i j k))) :
+    imageVal true ts g a b c = g.val i j k := by
+  have hs : srcIndex (seqApply (negSeqWith true ts)) g (outOff (seqApply ts) g) (outPitch (seqApply ts) g) (idxV a b c)
+      = idxV i j k := by
+    apply srcIndex_of_world _ g _ _ _ _ hx hy hz
+    have e : worldOf (outOff (seqApply ts) g) (outPitch (seqApply ts) g) (idxV a b c)
+        = seqApply ts (worldOf g.off g.pitch (idxV i j k)) := hland
+    rw [e]
+    exact negSeq_left ts ((invertible_iff ts).1 h) _
+  simp only [imageVal, outVal, outValWith, hs]
+  exact sample_int g.val g.nx g.ny g.nz i j k hi hj hk
+
+/-- **image_axis_aligned_exact.** When the sequence as a whole is an axis-aligned, orientation-preserving map
+`p ↦ (dx·x + tx, dy·y + ty, dz·z + tz)` with positive `d` (any scale-and-translate sequence, in any order): the
+new offset is the image of the old one, the voxel size is multiplied by `d`, and the grid content is unchanged
+voxel for voxel — whatever the members are. -/
+theorem image_axis_aligned_exact (ts : List Aff) (h : invertible ts = true) (g : Img) (d t : V3)
+    (hF : ∀ p : V3, seqApply ts p = ⟨d.x * p.x + t.x, d.y * p.y + t.y, d.z * p.z + t.z⟩)
+    (hd : 0 < d.x ∧ 0 < d.y ∧ 0 < d.z) (hp : 0 < g.pitch.x ∧ 0 < g.pitch.y ∧ 0 < g.pitch.z)
+    (hn : 0 < g.nx ∧ 0 < g.ny ∧ 0 < g.nz) :
+    imageOff ts g = seqApply ts g.off ∧ imagePitch ts g = cmul d g.pitch
+    ∧ ∀ i j k : Int, 0 ≤ i ∧ i < g.nx → 0 ≤ j ∧ j < g.ny → 0 ≤ k ∧ k < g.nz →
+        imageVal true ts g i j k = g.val i j k := by
+  have ho : imageOff ts g = seqApply ts g.off := outOff_diag _ d t hF g hd hp
+  have hq : imagePitch ts g = cmul d g.pitch := outPitch_diag _ d t hF g hd hp hn
+  refine ⟨ho, hq, fun i j k hi hj hk => ?_⟩
+  apply image_voxel_lands ts h g (ne_of_gt hp.1) (ne_of_gt hp.2.1) (ne_of_gt hp.2.2) i j k i j k hi hj hk
+  rw [ho, hq]
+  exact world_diag _ d t hF g.off g.pitch (idxV i j k)
+
+/-- **image_identity.** A sequence that composes to the identity (e.g. `×2` then `×½`, or
+`[S, T, S⁻¹, T']`) returns the input image: same offset, same voxel size, same content. -/
+theorem image_identity (ts : List Aff) (h : invertible ts = true) (g : Img) (hid : ∀ p, seqApply ts p = p)
+    (hp : 0 < g.pitch.x ∧ 0 < g.pitch.y ∧ 0 < g.pitch.z) (hn : 0 < g.nx ∧ 0 < g.ny ∧ 0 < g.nz) :
+    imageOff ts g = g.off ∧ imagePitch ts g = g.pitch
+    ∧ ∀ i j k : Int, 0 ≤ i ∧ i < g.nx → 0 ≤ j ∧ j < g.ny → 0 ≤ k ∧ k < g.nz →
+        imageVal true ts g i j k = g.val i j k := by
+  have hF : ∀ p : V3, seqApply ts p = ⟨(1 : Rat) * p.x + 0, (1 : Rat) * p.y + 0, (1 : Rat) * p.z + 0⟩ := by
+    intro p; rw [hid p]; simp
+  obtain ⟨a, b, c⟩ := image_axis_aligned_exact ts h g ⟨1, 1, 1⟩ ⟨0, 0, 0⟩ hF ⟨by decide, by decide, by decide⟩ hp hn
+  refine ⟨by rw [a, hid], ?_, c⟩
+  rw [b]; simp [cmul]
+
+
+/-- **bbox_midpoints_irrelevant.** navis computes the target bounding box from the corners of the source box PLUS the
+edge mid-points `subdivide()` adds; for a sequence of affine transforms those mid-points cannot change any
+coordinate-wise minimum or maximum, so the 8 corners (what the model uses) give the same box. -/
+theorem bbox_midpoints_irrelevant (ts : List Aff) (p : V3) (ps : List V3) (pairs : List (V3 × V3))
+    (hp : ∀ pr ∈ pairs, pr.1 ∈ p :: ps ∧ pr.2 ∈ p :: ps) :
+    bboxOfPts (((p :: ps) ++ pairs.map fun pr => mid pr.1 pr.2).map (seqApply ts))
+      = bboxOfPts ((p :: ps).map (seqApply ts)) :=
+  bboxOfPts_mid ts p ps pairs hp
+
+/-- **imageOK_sound.** The run-time checker evaluated on navis' own result accepts (at zero tolerance) only the
+modelled image: no singular member, offset and voxel size those of the forward-transformed box, every voxel of the
+grid the sample at the pulled-back position. -/
+theorem imageOK_sound (ts : List Aff) (g : Img) (off' pitch' : V3) (val' : Int → Int → Int → Rat)
+    (h : imageOK 0 ts g off' pitch' val' = true) :
+    invertible ts = true ∧ off' = imageOff ts g ∧ pitch' = imagePitch ts g
+    ∧ ∀ a b c : Nat, a < g.nx → b < g.ny → c < g.nz → val' a b c = imageVal true ts g a b c := by
+  rw [imageOK_unfold] at h
+  simp only [Bool.and_eq_true, List.all_eq_true] at h
+  obtain ⟨⟨⟨h1, h2⟩, h3⟩, h4⟩ := h
+  refine ⟨h1, closeV3_zero h2, closeV3_zero h3, fun a b c ha hb hc => ?_⟩
+  have h5 := h4 ((a : Int), (b : Int), (c : Int)) (mem_allIdx g.nx g.ny g.nz a b c ha hb hc)
+  exact closeRat_zero h5
+
+/-- **landsOK_sound.** The forward checker (no inverse involved) accepts only results in which every listed source
+voxel whose forward image falls exactly on a voxel of the result grid is found there with its value. -/
+theorem landsOK_sound (fwd : RowFn) (g : Img) (src : List Vox) (off' pitch' : V3) (val' : Int → Int → Int → Rat)
+    (h : landsOK 0 fwd g src off' pitch' val' = true) (c : Vox) (hc : c ∈ src)
+    (hin : inGrid g.nx g.ny g.nz (landIdx fwd g off' pitch' c.i c.j c.k) = true) :
+    val' (landIdx fwd g off' pitch' c.i c.j c.k).x.floor (landIdx fwd g off' pitch' c.i c.j c.k).y.floor
+      (landIdx fwd g off' pitch' c.i c.j c.k).z.floor = c.v := by
+  simp only [landsOK, List.all_eq_true] at h
+  have := h c hc
+  simp only [hin, if_true] at this
+  exact closeRat_zero this
+
+/-! non-vacuity: a 3×2×2 grid, voxel size 2, pushed through "×2 then shift" -/
+def gridEx : Img := ⟨3, 2, 2, ⟨3, 5, 7⟩, ⟨2, 2, 2⟩, sparseVal [⟨0, 0, 0, 1/2⟩, ⟨2, 1, 1, 3⟩]⟩
+
+example : invertible [S2, Sh] = true := by decide +kernel
+example : imageOff [S2, Sh] gridEx = ⟨18, 10, 10⟩ ∧ imagePitch [S2, Sh] gridEx = ⟨4, 4, 4⟩ := by decide +kernel
+example : imageSparse [S2, Sh] gridEx = [⟨0, 0, 0, 1/2⟩, ⟨2, 1, 1, 3⟩] := by decide +kernel
+/-- a flip moves the content to the mirrored index (and crops index 0, which would land on index 3) -/
+example : imageSparse [mirrorMat .x 10] gridEx = [⟨1, 1, 1, 3⟩] := by decide +kernel
+/-- a permutation of axes on a 2×2×2 grid with voxel size (1, 2, 2) interpolates (half indices) -/
+example : imageVal true [⟨0, 1, 0, 0, 1, 0, 0, 0, 0, 0, 1, 0⟩]
+    ⟨2, 2, 2, ⟨0, 0, 0⟩, ⟨1, 2, 2⟩, sparseVal [⟨0, 0, 0, 1⟩, ⟨1, 0, 0, 3⟩]⟩ 0 1 0 = 3 := by decide +kernel
+/-- with the un-reversed inverses the same image is resampled from the wrong place (nothing is left of it) -/
+example : (allIdx 3 2 2).map (fun (i, j, k) => imageVal false [S2, Sh] gridEx i j k) ≠
+    (allIdx 3 2 2).map (fun (i, j, k) => imageVal true [S2, Sh] gridEx i j k) := by decide +kernel
+example : imageOK 0 [S2, Sh] gridEx ⟨18, 10, 10⟩ ⟨4, 4, 4⟩ (sparseVal [⟨0, 0, 0, 1/2⟩, ⟨2, 1, 1, 3⟩]) = true := by
+  decide +kernel
+example : landsOK 0 (seqApply [S2, Sh]) gridEx [⟨0, 0, 0, 1/2⟩, ⟨2, 1, 1, 3⟩] ⟨18, 10, 10⟩ ⟨4, 4, 4⟩
+    (sparseVal [⟨0, 0, 0, 1/2⟩, ⟨2, 1, 1, 3⟩]) = true
+    ∧ landCount (seqApply [S2, Sh]) gridEx [⟨0, 0, 0, 1/2⟩, ⟨2, 1, 1, 3⟩] ⟨18, 10, 10⟩ ⟨4, 4, 4⟩ = 2 := by
+  decide +kernel
+
+end Image
+
+/-! ## 9. `xform_brain` and `mirror_brain(via=…)` -/
+
+/-- **xform_brain_spec.** `xform_brain` on a neuron is `xform` with the sequence along the bridging path — so
+coordinates move and nothing else does (`stack_slice_exact`) — followed by the units override: when the last
+non-alias template of the path carries `_navis_units`, the units are exactly those, otherwise they follow the
+detected power of ten. -/
+theorem xform_brain_spec {α β μ} (f : RowFn) (guess : Int) (o : Option Rat) (n : Neuron α β μ) (h : helpersOK n) :
+    xformBrainNeuron f guess o n = some (match o with
+      | some u => { specXform f guess n with units := some u }
+      | none => specXform f guess n) :=
+  xformBrainNeuron_eq f guess o n h
+
+/-- Which template decides the units: the one the LAST non-alias edge of the path leads to (trailing alias edges
+are skipped, whatever they carry); a path of aliases only decides nothing. -/
+theorem brain_units_last_non_alias (es as : List (Bool × Option Rat)) (u : Option Rat)
+    (h : ∀ e ∈ as, e.1 = true) :
+    brainUnits (es ++ (false, u) :: as) = u ∧ brainUnits as = none :=
+  ⟨brainUnits_last es as u h, brainUnits_alias as h⟩
+
+/-- **mirror_via_spec.** `mirror_brain(x, template, via=V)` on a skeleton or mesh — bridge to `V` (`f1`), flip
+(+ warp) there (`g`), bridge back (`f2`) — never fails and moves node/vertex and connector coordinates by
+`f2 ∘ g ∘ f1`, re-winds mesh faces exactly once, and changes no other column, link or meta datum, whatever
+magnitudes the two `xform` calls detect. -/
+theorem mirror_via_spec {α β μ} (f1 : RowFn) (m1 : Int) (o1 : Option Rat) (g : RowFn) (f2 : RowFn) (m2 : Int)
+    (o2 : Option Rat) (n : Neuron α β μ) (hk : n.kind ≠ Kind.dots) :
+    ∃ out, mirrorViaNeuron f1 m1 o1 g f2 m2 o2 n = some out ∧ out.kind = n.kind
+      ∧ out.pts = n.pts.mapXYZ (fun p => f2 (g (f1 p)))
+      ∧ out.conns = n.conns.map (Table.mapXYZ fun p => f2 (g (f1 p)))
+      ∧ out.faces = (if n.kind = Kind.mesh then n.faces.map rewind else n.faces) ∧ out.k = n.k ∧ out.info = n.info :=
+  mirrorViaNeuron_fields f1 m1 o1 g f2 m2 o2 n hk
+
+/-- Bridging there and back with inverse sequences around a warp-free flip is again an involution on points:
+`(f⁻¹ ∘ flip ∘ f) ∘ (f⁻¹ ∘ flip ∘ f) = id`. -/
+theorem mirror_via_involution (ts : List Aff) (h : XformImage.invertible ts = true) (a : Axis) (s : Rat) (p : V3) :
+    let m : RowFn := fun q => seqApply (XformImage.negSeq ts) (mirrorFn a s none (seqApply ts q))
+    m (m p) = p := by
+  intro m
+  have hi := (XformImage.invertible_iff ts).1 h
+  simp only [m]
+  rw [XformImage.negSeq_right ts hi, mirror_involution, XformImage.negSeq_left ts hi]
+
+/-- `checkXformBrain` (evaluated by the driver on navis' own `xform_brain` result) is sound: coordinates, columns,
+faces, `k`, meta data exactly `specXform`; at zero tolerance the units are exactly the override. -/
+theorem checkXformBrain_sound {α β μ} [DecidableEq α] [DecidableEq β] [DecidableEq μ]
+    (eps : Rat) (f : RowFn) (guess : Int) (o : Option Rat) (n out : Neuron α β μ)
+    (h : checkXformBrain eps f guess o n out = true) :
+    out.kind = n.kind ∧ out.pts = n.pts.mapXYZ f ∧ out.conns = n.conns.map (Table.mapXYZ f) ∧
+    out.faces = n.faces ∧ out.k = n.k ∧ out.info = n.info :=
+  checkXformBrain_exact eps f guess o n out h
+
+theorem checkXformBrain_sound_units {α β μ} [DecidableEq α] [DecidableEq β] [DecidableEq μ]
+    (f : RowFn) (guess : Int) (u : Rat) (n out : Neuron α β μ)
+    (h : checkXformBrain 0 f guess (some u) n out = true) : out.units = some u :=
+  checkXformBrain_units f guess u n out h
+
+example : brainUnits [(false, some 1), (false, some (1/1000)), (true, some 5)] = some (1/1000) := by decide +kernel
+example : (xformBrainNeuron (V3.smul 1000) 3 (some 1) sampleTree).map (fun o => (o.units, o.radius)) =
+    some (some 1, some [some 10, none, some 2000]) := by decide +kernel
+example : (mirrorViaNeuron T1.apply 0 none (mirrorFn .x 10 none) (XformImage.inv T1).apply 0 none sampleTree).map
+    (·.pts.xyz) = some [⟨4, 0, 0⟩, ⟨3, 2, 2⟩, ⟨1, 2, 2⟩] := by decide +kernel
+
+/-! ## 10. the current source still says what the models assume (translator facts, `Gen/XformFacts.lean`) -/
+section SourceFacts
+open Navis.XformImage Navis.XformSpec
+
+/-- **neg_as_written_inverts.** With the iteration order and the per-member negation the translator reads off
+`TransformSequence.__neg__` in the CURRENT source, `-seq` is a two-sided inverse of every non-singular sequence.
+(Stops checking when the `[::-1]` or the `-t` disappears: `unreversed_inverse_wrong`.) -/
+theorem neg_as_written_inverts (ts : List Aff) (h : invertible ts = true) (p : V3) :
+    Gen.XformFacts.negInvertsEachMember = true
+    ∧ seqApply (negSeqWith Gen.XformFacts.negReversesOrder ts) (seqApply ts p) = p
+    ∧ seqApply ts (seqApply (negSeqWith Gen.XformFacts.negReversesOrder ts) p) = p :=
+  ⟨rfl, negSeq_left ts ((invertible_iff ts).1 h) p, negSeq_right ts ((invertible_iff ts).1 h) p⟩
+
+/-- **seq_xform_as_written_keeps_input.** With the way the CURRENT source creates the working array of
+`TransformSequence.xform` (a copy: `.astype` / `.copy()` / `np.array`), the caller's array is untouched and the
+result is the members applied in list order.  (With `np.asarray(points, dtype=…)` the generated fact is `false`
+and the caller's float64 array would hold the transformed rows: the statement is no longer provable.) -/
+theorem seq_xform_as_written_keeps_input (ts : List Aff) (pts : List V3) :
+    Gen.XformFacts.seqAppliesInListOrder = true
+    ∧ (seqXformBuffers Gen.XformFacts.seqXformCopiesInput ts pts).1 = pts.map (seqApply ts)
+    ∧ (seqXformBuffers Gen.XformFacts.seqXformCopiesInput ts pts).2 = pts :=
+  ⟨rfl, rfl, rfl⟩
+
+/-- **slices_as_written_recover_parts.** The stacking order and the five slice expressions of `xfm_funcs.xform`
+as the CURRENT source has them (`xyz_xf[:n]`, `xyz_xf[n : 2 * n]`, `xyz_xf[-n_connectors:]`, …), interpreted with
+numpy's slicing rules: every part comes back transformed on its own, for every row function and all block sizes. -/
+theorem slices_as_written_recover_parts (f : RowFn) (pts helpers conns : List V3)
+    :
+    let blk := (stackBy Gen.XformFacts.stackOrder pts helpers conns).map f
+    sliceBy pts.length conns.length Gen.XformFacts.sliceNodes blk = pts.map f
+    ∧ sliceBy pts.length conns.length Gen.XformFacts.slicePoints blk = pts.map f
+    ∧ sliceBy pts.length conns.length Gen.XformFacts.sliceVertices blk = pts.map f
+    ∧ (helpers.length = pts.length → sliceBy pts.length conns.length Gen.XformFacts.sliceHelpers blk = helpers.map f)
+    ∧ (conns.length ≠ 0 → sliceBy pts.length conns.length Gen.XformFacts.sliceConnectors blk = conns.map f) := by
+  intro blk
+  have hb : blk = pts.map f ++ (helpers.map f ++ conns.map f) := by
+    simp [blk, stackBy, Gen.XformFacts.stackOrder]
+  have hl : blk.length = pts.length + (helpers.length + conns.length) := by simp [hb]
+  refine ⟨?_, ?_, ?_, ?_, ?_⟩
+  · simp [sliceBy, pos, cntOf, Gen.XformFacts.sliceNodes, hl, hb]
+  · simp [sliceBy, pos, cntOf, Gen.XformFacts.slicePoints, hl, hb]
+  · simp [sliceBy, pos, cntOf, Gen.XformFacts.sliceVertices, hl, hb]
+  · intro h
+    simp only [sliceBy, pos, cntOf, Gen.XformFacts.sliceHelpers, hl]
+    rw [List.drop_take, hb]
+    have e1 : min pts.length (pts.length + (helpers.length + conns.length)) = pts.length := by omega
+    have e2 : min (2 * pts.length) (pts.length + (helpers.length + conns.length)) - pts.length = helpers.length := by omega
+    rw [e1, e2]
+    have : (pts.map f).length = pts.length := by simp
+    rw [← this, List.drop_left]
+    have : (helpers.map f).length = helpers.length := by simp
+    rw [← this, List.take_left]
+  · intro h
+    simp only [sliceBy, pos, cntOf, Gen.XformFacts.sliceConnectors, hl, if_neg h]
+    rw [hb, ← List.append_assoc]
+    have : pts.length + (helpers.length + conns.length) - conns.length = (pts.map f ++ helpers.map f).length := by
+      simp only [List.length_append, List.length_map]; omega
+    rw [this]
+    have hk : pts.length + (helpers.length + conns.length) = (pts.map f ++ helpers.map f ++ conns.map f).length := by
+      simp only [List.length_append, List.length_map]; omega
+    rw [hk, List.take_length, List.drop_left]
+
+/-- the scale guess runs exactly when the block has at least two rows -/
+theorem guess_guard_as_written (rows : Nat) :
+    guardHolds Gen.XformFacts.guessGuard rows = decide (1 < rows) := by
+  simp only [guardHolds, Gen.XformFacts.guessGuard, Cmp.holdsInt]
+  rw [decide_eq_decide]
+  omega
+
+/-- **scale_rules_as_written.** Operators and base as the CURRENT source has them: radius and soma radius are
+multiplied by `10^m`, units divided by it, so the physical radius `radius · units` is invariant. -/
+theorem scale_rules_as_written (r u s : Rat) (m : Int) :
+    applyScale Gen.XformFacts.radiusScale r m = r * pow10 m
+    ∧ applyScale Gen.XformFacts.unitsScale u m = u / pow10 m
+    ∧ applyScale Gen.XformFacts.somaScale s m = s * pow10 m
+    ∧ applyScale Gen.XformFacts.radiusScale r m * applyScale Gen.XformFacts.unitsScale u m = r * u := by
+  simp only [applyScale, Gen.XformFacts.radiusScale, Gen.XformFacts.unitsScale,
+    Gen.XformFacts.somaScale, powBase_ten]
+  exact ⟨trivial, trivial, trivial, scale_cancel m r u⟩
+
+/-- **flip_matrix_as_written.** `np.eye(4)` with the two writes `mirror` performs, through the axis → index table of
+the CURRENT source, is the flip matrix of the model (`x ↦ size − x` on that axis) for every axis and size. -/
+theorem flip_matrix_as_written (a : Axis) (s : Rat) :
+    flipOf Gen.XformFacts.axisIndex Gen.XformFacts.mirrorEntries a s = some (mirrorMat a s) := by
+  cases a <;> simp [flipOf, Gen.XformFacts.axisIndex, Gen.XformFacts.mirrorEntries, axisName, List.lookup,
+    affOf, flipMatrix, cellPos, mval, mirrorMat]
+
+/-- the rows `symmetrize_brain` mirrors are exactly those with `x > center` -/
+theorem symmetrize_side_as_written (center : Rat) (p : V3) :
+    sideHolds Gen.XformFacts.symmSideTest center p = decide (center < p.x) := by
+  simp only [sideHolds, Gen.XformFacts.symmSideTest, Cmp.holdsRat, colOf]
+
+/-- **source_facts_as_modelled.** The remaining literal facts the models hard-wire, as the CURRENT source states them:
+how the axis size is read from both bounding-box layouts (`bbox[ix, :].sum()` / `bbox[:, ix].sum()`, i.e. `lo + hi`),
+faces re-wound for MeshNeuron and Trimesh in `mirror_brain` and never in `symmetrize_brain`, the un-warped flip back
+of `symmetrize_brain`, and for images: linear interpolation, constant 0 outside, the box pushed forward with
+`transform`, the target positions pulled back through `-transform`.  (Facts that are not property-relevant — helper
+point factors, names of locals, the literal index expressions — are extracted for the record but not pinned.) -/
+theorem source_facts_as_modelled :
+    Gen.XformFacts.axisSize = [("(2, 3)", ":,ix", "sum"), ("(3, 2)", "ix,:", "sum")]
+    ∧ Gen.XformFacts.mirrorRewinds = ["MeshNeuron", "Trimesh"] ∧ Gen.XformFacts.symmetrizeRewinds = []
+    ∧ Gen.XformFacts.symmFlipBackWarp = "False"
+    ∧ Gen.XformFacts.imageInterpOrder = 1 ∧ Gen.XformFacts.imageMode = "constant"
+    ∧ Gen.XformFacts.imageCval = 0
+    ∧ Gen.XformFacts.imagePullsBackThroughNeg = true ∧ Gen.XformFacts.imagePushesBoxForward = true := by decide
+
+end SourceFacts
+
+/-! ## 11. the scale guess: `round(log10 ·)` -/
+
+/-- **round_log10_characterised.** `roundLog10 c = m` (what `round(math.log10(c))` is, computed without logarithms)
+exactly when `10^(2m−1) ≤ c² < 10^(2m+1)`, i.e. `|log10 c − m| < ½` — for every positive rational `c` and every
+`m ∈ [−40, 40]`. -/
+theorem round_log10_characterised (c : Rat) (m : Int) (hm : -40 ≤ m ∧ m ≤ 40) :
+    roundLog10 c = some m ↔ (0 < c ∧ pow10 (2 * m - 1) ≤ c * c ∧ c * c < pow10 (2 * m + 1)) :=
+  ⟨roundLog10_sound c m, fun ⟨h0, h1, h2⟩ => roundLog10_complete c m h0 hm h1 h2⟩
+
+/-- **guess_of_power_of_ten.** A transform that multiplies every distance by exactly `10^k` (nm → µm, µm → nm, …) is
+detected as magnitude `k`: together with `scale_follows_guess` radii are multiplied by `10^k` and units divided by it. -/
+theorem guess_of_power_of_ten (k : Int) (hk : -20 ≤ k ∧ k ≤ 20) : guessUniform (pow10 k) = k := by
+  have h : roundLog10 (pow10 k) = some k := by
+    apply roundLog10_complete _ _ (pow10_pos k) ⟨by omega, by omega⟩
+    · rw [pow10_sq]; exact pow10_mono (by omega)
+    · rw [pow10_sq]; exact pow10_strict (by omega)
+  simp [guessUniform, h]
+
+example : roundLog10 8 = some 1 ∧ roundLog10 (1/4) = some (-1) ∧ roundLog10 2 = some 0 ∧ roundLog10 (1/1000) = some (-3) := by
+  decide +kernel
+
+/-! ## 12. run-time checkers for `mirror_brain`, `symmetrize_brain`, tables and meshes are sound -/
+
+/-- **checkMirror_sound.** `checkMirror` (evaluated by the driver on navis' own `mirror_brain` result) accepts, for any
+tolerance, only results whose node/vertex/point and connector coordinates are the input's moved by `g`, whose faces
+are re-wound exactly for meshes, and whose other columns, `k` and meta data are the input's — every neuron kind,
+with `k` and without. -/
+theorem checkMirror_sound {α β μ} [DecidableEq α] [DecidableEq β] [DecidableEq μ]
+    (eps : Rat) (g : RowFn) (n out : Neuron α β μ) (h : checkMirror eps g n out = true) :
+    out.kind = n.kind ∧ out.pts = n.pts.mapXYZ g ∧ out.conns = n.conns.map (Table.mapXYZ g)
+    ∧ out.faces = (if n.kind = Kind.mesh then n.faces.map rewind else n.faces) ∧ out.k = n.k ∧ out.info = n.info :=
+  checkMirror_fields eps g n out h
+
+/-- **checkSymm_sound.** `checkSymm` accepts only results that are, field by field, what `symmetrizeNeuron` returns
+(whose content is `symmetrize_neuron_spec`). -/
+theorem checkSymm_sound {α β μ} [DecidableEq α] [DecidableEq β] [DecidableEq μ]
+    (eps : Rat) (S : List V3 → List V3) (n out : Neuron α β μ) (h : checkSymm eps S n out = true) :
+    ∃ m, symmetrizeNeuron S n = some m ∧ out.kind = m.kind ∧ out.pts = m.pts ∧ out.conns = m.conns ∧
+      out.faces = m.faces ∧ out.k = m.k ∧ out.info = m.info :=
+  checkSymm_some eps S n out h
+
+/-- `checkTable` / `checkMesh` accept exactly the specified results (sound and complete). -/
+theorem checkTable_checkMesh_exact {α} [DecidableEq α] (f : RowFn) (t out : Table α)
+    (v : List V3) (fs : List Face) (v' : List V3) (fs' : List Face) :
+    (checkTable f t out = true ↔ out = t.mapXYZ f)
+    ∧ (checkMesh f v fs v' fs' = true ↔ (v', fs') = mirrorMesh f v fs) :=
+  ⟨checkTable_iff f t out, checkMesh_iff f v fs v' fs'⟩
+
+example : checkMirror 0 (mirrorFn .x 10 none) sampleTree
+    { sampleTree with pts := ⟨[⟨10, 0, 0⟩, ⟨9, 2, 2⟩, ⟨7, 2, 2⟩], ["1:-1", "2:1", "3:2"]⟩ } = true := by decide +kernel
+example : checkMirror 0 (mirrorFn .x 10 none) sampleTree sampleTree = false := by decide +kernel
 
 end Navis.Props.C16
